@@ -154,7 +154,26 @@ impl Leg for Python {
     }
 }
 
+/// first calls of a fresh process made by several threads at once
+pub struct Cold;
+impl Leg for Cold {
+    type Case = super::coldstart::Case;
+    const NAME: &'static str = "cold-start-threads";
+    fn strategy(_tier: Tier) -> BoxedStrategy<Self::Case> {
+        use super::coldstart::Op;
+        let op = gen::k_strategy().prop_flat_map(|k| super::coldstart::small_seq(k).prop_map(move |seq| Op::KmerIter { seq, k })).boxed();
+        super::coldstart::case_strategy(op)
+    }
+    fn check(c: &Self::Case) -> Verdict {
+        super::coldstart::check(c, "cold-start-wrong-result")
+    }
+}
+
 pub fn run(ctx: &mut Ctx) {
+    let nc = ctx.share(ctx.tier.pick(400, 8_000));
+    ctx.run_leg::<Cold>(nc, false, 40);
+    super::coldstart::infra_inconclusive(ctx);
+
     let n = ctx.share(ctx.tier.pick(30_000, 400_000));
     ctx.run_leg::<Python>(n, false, 1000);
     let n = ctx.share(ctx.tier.pick(200_000, 4_000_000));
@@ -166,6 +185,7 @@ pub fn replay(leg: &str, case: &serde_json::Value) -> Option<Result<Verdict, Str
     match leg {
         "iter-vs-model" => Some(crate::engine::replay_leg::<Iter>(case)),
         "python" => Some(crate::engine::replay_leg::<Python>(case)),
+        "cold-start-threads" => Some(crate::engine::replay_leg::<Cold>(case)),
         _ => None,
     }
 }
